@@ -7,6 +7,7 @@ import AidlVerif.Props.C09
 import AidlVerif.Props.C08
 import AidlVerif.Props.C06
 import AidlVerif.Driver.Walk
+import AidlVerif.Props.C12
 
 /-
   Model driver: one JSON case per input line, one JSON verdict per output line.
@@ -238,6 +239,120 @@ def opWalk (prop : String) (j : Json) : R Verdict := do
     v := { v with nontrivial := acc.nsyms > 3, dist := bump v.dist s!"refs_to_items={min nres 5}" }
   return v
 
+def sortedByOffset (ds : List Diag) : Bool :=
+  (ds.zip ds.tail).all fun (a, b) => a.range.start.off ≤ b.range.start.off
+
+def wfRanges (files : List FileResult) : Bool :=
+  files.all fun fr => match fr.ast with
+    | some a => decide (Props.C11.WFRanges a)
+    | none => true
+
+/-- C11: repeated / shuffled / threaded runs of the implementation against each other and the model -/
+def opDeterminism (j : Json) : R Verdict := do
+  let impl ← fld j "impl"
+  let outcome ← str (← fld impl "outcome")
+  if outcome ≠ "ok" then
+    return { corr := [("outcome", false)], detail := [("impl_outcome", Json.str outcome)] }
+  let stage1 ← list fileResult (← fld impl "stage1")
+  let out ← list fileResult (← fld impl "out")
+  let differing ← fld impl "differing"
+  let mut v : Verdict := {}
+  -- the model under two hash orders and two insertion orders
+  let m1 := (validate HashOrder.id stage1).toOption.map sortById
+  let m2 := (validate HashOrder.rev stage1.reverse).toOption.map sortById
+  v := v.addCorr "C11" (m1 == some out && m2 == some out)
+  -- the statement: every run equal (trees and diagnostic lists), diagnostics ascending in every file
+  let allEqual := match differing with | .null => true | _ => false
+  let sorted := out.all fun fr => sortedByOffset fr.diags
+  v := v.addSpec "C11" (allEqual && sorted)
+  v := v.addAssume "C11" (wfRanges stage1)
+  let sameLine := out.any fun fr => (fr.diags.zip fr.diags.tail).any fun (a, b) => a.range.start.line == b.range.start.line
+  let noTree := out.any fun fr => fr.ast.isNone
+  v := { v with nontrivial := out.any (fun fr => fr.diags.length ≥ 2),
+                dist := (if sameLine then bump v.dist "several diagnostics on one line" else v.dist) }
+  v := { v with dist := if noTree then bump v.dist "file without tree" else v.dist }
+  match differing with
+  | .null => pure ()
+  | d => v := v.addDetail "differing" ((d.getObjVal? "how").toOption.getD .null)
+  return v
+
+/-- C12: replay the history on the model of parser.rs (parse = the implementation's syntax stage) -/
+def opHistory (j : Json) : R Verdict := do
+  let impl ← fld j "impl"
+  let outcome ← str (← fld impl "outcome")
+  if outcome ≠ "ok" then
+    return { corr := [("outcome", false)], detail := [("impl_outcome", Json.str outcome)] }
+  let table ← list (fun e => do
+    pure ((← str (← fld e "content")), (← fileResult (← fld e "result")))) (← fld impl "parse_table")
+  let parse : ParseFn := fun c => match table.lookup c with
+    | some fr => (fr.ast, fr.diags)
+    | none => (none, [])
+  let opsJ ← arr (← fld j "ops")
+  -- every op comes with the file system it sees (the harness rewrites the files between steps)
+  let mut ops : List (Op × Except String String) := []
+  for oj in opsJ do
+    let a ← arr oj
+    match (← str a[0]!) with
+    | "add" => ops := ops ++ [(Op.add (← str a[1]!) (← str a[2]!), .error "unused")]
+    | "remove" => ops := ops ++ [(Op.remove (← str a[1]!), .error "unused")]
+    | "validate" => ops := ops ++ [(Op.validate, .error "unused")]
+    | "add_file" =>
+      let path ← str a[1]!
+      match a[2]! with
+      | .str _ => ops := ops ++ [(Op.addFile path, .error "io")]
+      | t => do
+        let ta ← arr t
+        ops := ops ++ [(Op.addFile path, .ok (← str ta[1]!))]
+    | s => throw s!"op {s}"
+  let merged : Store := ops.foldl (fun s (op, fsys) => (step parse (fun _ => fsys) HashOrder.id s op).1) []
+  let final ← list fileResult (← fld impl "final")
+  let model := (validate HashOrder.id merged.values).toOption.map sortById
+  let steps ← arr (← fld impl "steps")
+  let allSame := (← steps.toList.mapM (fun s => do bool (← fld s "same_as_fresh"))).all id
+  -- io results: ok exactly for readable UTF-8 files
+  let ioOk := (← (steps.toList.zip ops).mapM (fun (s, (op, fsys)) => do
+    let io := (s.getObjVal? "io").toOption.getD .null
+    match op with
+    | .addFile _ => pure (match fsys, io with
+        | .ok _, .str "ok" => true
+        | .error _, .str "err" => true
+        | _, _ => false)
+    | _ => pure (io == .null))).all id
+  let mut v : Verdict := {}
+  v := v.addCorr "C12" (model == some final)
+  v := v.addSpec "C12" (allSame && ioOk)
+  v := { v with nontrivial := ops.length ≥ 2, dist := bump v.dist s!"len~{min (ops.length / 5 * 5) 40}" }
+  return v
+
+/-- C13: one target file inside two projects -/
+def opPerturb (j : Json) : R Verdict := do
+  let impl ← fld j "impl"
+  let outcome ← str (← fld impl "outcome")
+  if outcome ≠ "ok" then
+    return { corr := [("outcome", false)], detail := [("impl_outcome", Json.str outcome)] }
+  let target ← str (← fld j "target")
+  let how ← str (← fld j "how")
+  let s1 ← list fileResult (← fld impl "stage1_a")
+  let s2 ← list fileResult (← fld impl "stage1_b")
+  let o1 ← list fileResult (← fld impl "out_a")
+  let o2 ← list fileResult (← fld impl "out_b")
+  let d1 := collectItemKeys s1
+  let d2 := collectItemKeys s2
+  let find (l : List FileResult) := l.find? (fun fr => fr.id == target)
+  let mut v : Verdict := {}
+  match find s1, find s2, find o1, find o2 with
+  | some t1, some t2, some r1, some r2 =>
+    let m1 := (validateFile HashOrder.id d1 t1).toOption
+    let m2 := (validateFile HashOrder.rev d2 t2).toOption
+    v := v.addCorr "C13" (m1 == some r1 && m2 == some r2)
+    v := v.addSpec "C13" (Spec.C13.holdsPair d1 d2 t1 t2 r1 r2)
+    let same := t1 == t2 && Spec.C13.facts d1 t1 == Spec.C13.facts d2 t2
+    v := { v with nontrivial := !(Spec.C13.importKeys t1).isEmpty,
+                  dist := bump (bump v.dist how) (if same then "facts unchanged" else "facts changed (control)") }
+    if !same then v := { v with dist := bump v.dist (if r1 == r2 then "control: result unchanged" else "control: result changed") }
+  | _, _, _, _ => v := v.addCorr "C13" false
+  return v
+
 def handle (prop : String) (line : String) : Json :=
   match Json.parse line with
   | .error e => Json.mkObj [("error", s!"json: {e}")]
@@ -248,6 +363,9 @@ def handle (prop : String) (line : String) : Json :=
       match op with
       | "validate" => opValidate prop j
       | "walk" => opWalk prop j
+      | "determinism" => opDeterminism j
+      | "history" => opHistory j
+      | "perturb" => opPerturb j
       | _ => throw s!"unknown op {op}" : R Verdict) with
     | .ok v => v.toJson case
     | .error e => Json.mkObj [("case", case), ("error", e)]
